@@ -258,6 +258,9 @@ VerifyOutcome ==
   \* challenge cannot be the cause) and C03's (a crash is not the specification's verdict)
   \/ ~CmpV /\ Has(Ev, "panicked") /\ Ev.panicked
   \/ /\ CmpV => (res'.V = Ev.res /\ RefExplains)
+     \* ... and the code got as far as the specification: it derived every challenge the specification's verifier derives in this step
+     \* (a verifier that gives up earlier returns no challenge values; the specification must not be evaluated on defaults in their place)
+     /\ CmpV => Len(SelectSeq(NewOps("V"), LAMBDA o : o.o = "C")) <= Len(ChVals(Ev.tx))
      /\ CmpK => ((Ev.res = "InvalidGeneratorsLength") <=> (res'.V = "InvalidGeneratorsLength"))
      /\ CmpI => IntegrityOrder(Ev.tx, NewOps("V"))
      /\ OpsMatch(Ev.tx, NewOps("V"))
